@@ -528,7 +528,15 @@ class Recorder:
 
 STD_KINDS = ["rejection", "flow", "cap", "resume-flow", "rejection-t", "resume-rejection", "cap-late", "flow-narrow",
              "rejection-ties", "cap-exact", "flow-ties", "rejection-cut", "resume-finished", "resume-cap",
-             "rejection-offset", "flow-offset", "rejection-flat", "flow-angle"]
+             "rejection-offset", "flow-offset", "rejection-flat", "flow-angle", "rejection-interim", "flow-interim"]
+
+
+def _interim_reader(sampler):
+    """a `checkpoint_callback` that writes nothing and READS the interim results (a user monitoring a run): the final results must
+    not depend on having been looked at before the run finished (seeded change C05-iA: birth_log_likelihoods cached its array and
+    finalise did not invalidate it)"""
+    d = sampler.get_result_dictionary()
+    _ = (sampler.birth_log_likelihoods, d.get("log_evidence"), sampler.nested_samples[-1:] if len(sampler.nested_samples) else None)
 
 
 def std_config(kind, seed, nlive, dims=2):
@@ -550,6 +558,8 @@ def std_config(kind, seed, nlive, dims=2):
         kw.update(max_iteration=100000)
     if kind in ("resume-flow", "resume-rejection"):
         kw.update(checkpointing=True, checkpoint_on_iteration=True, checkpoint_interval=max(7, nlive // 3))
+    if kind.endswith("-interim"):
+        kw.update(checkpointing=True, checkpoint_on_iteration=True, checkpoint_interval=1, checkpoint_callback=_interim_reader)
     return kw
 
 
